@@ -266,7 +266,7 @@ def has_mixed_list(doc):
 
 
 def data_equal(l, r, array_mode="position", aoh_mode="position", aoh_key=None,
-               mixed="aoh", whole_unit="recursive"):
+               mixed="aoh", whole_unit="recursive", scalars="strict"):
     """Do two documents hold the same data, sequence order disregarded wherever
     the mode in force synchronises the sequence (multiset-wise, recursively)?
 
@@ -279,6 +279,8 @@ def data_equal(l, r, array_mode="position", aoh_mode="position", aoh_key=None,
                   (aoh position/value/key) still follows the modes (the
                   statement: order disregarded in the synchronised modes);
                   "plain": a whole unit is compared by plain equality.
+      scalars     "strict": true is not 1;  "loose": Python `==` on scalars (only
+                  ever used to *name* the cause of a disagreement).
     aoh_key is accepted for signature completeness: multiset equality of records
     does not depend on which field identifies them (see identity_key_issues for
     the cases where matching *by key* cannot realise that multiset equality)."""
@@ -296,6 +298,8 @@ def data_equal(l, r, array_mode="position", aoh_mode="position", aoh_key=None,
         if ka == "set":
             return canon(a) == canon(b)
         if ka != "seq":
+            if scalars == "loose":
+                return a == b
             return _scalar_token(a) == _scalar_token(b)
         if len(a) != len(b):
             return False
@@ -312,7 +316,7 @@ def data_equal(l, r, array_mode="position", aoh_mode="position", aoh_key=None,
             return pairwise(a, b, eq) if array_mode == "position" else multiset(a, b, eq)
         rec_eq = eq
         if whole_unit == "plain" and aoh_mode in AOH_WHOLE_UNIT:
-            rec_eq = strict_equal
+            rec_eq = strict_equal if scalars == "strict" else loose_equal
         if aoh_mode in AOH_SYNC:
             return multiset(a, b, rec_eq)
         return pairwise(a, b, rec_eq)
@@ -412,10 +416,16 @@ def diff_truth(entries, lhs, rhs, modes):
       leaf-covered     (positional)  every leaf of either document has an entry at its path or an ancestor's
       differ-no-entry  (all modes)   documents differ as data  => some entry is not SAME
       equal-but-entry  (all modes)   documents equal as data   => every entry is SAME   (reflexivity when lhs is rhs)
-      left-once        (all modes)   every left leaf lies under exactly one SAME/CHANGE/DELETE entry's left value
-      right-once       (all modes)   every right leaf lies under exactly one SAME/CHANGE/ADD entry's right value
-    In the synchronised modes an entry's index may name either document's
-    position, so the exactly-once clauses compare index-free paths there."""
+      left-once        (all modes)   every left sequence element is accounted for exactly once by SAME/CHANGE/DELETE
+      right-once       (all modes)   every right sequence element is accounted for exactly once by SAME/CHANGE/ADD
+    An element that is traversed deeply is accounted for by the entries of its leaves,
+    so the exactly-once clauses are checked leaf by leaf, over the leaves that are or
+    lie within a sequence element (the statement speaks of elements; a leaf outside any
+    sequence is subject to leaf-covered only).  In the synchronised modes an entry's
+    index may name either document's position: index-free paths are compared there.
+    A container without children counts as a leaf, except where the other document
+    holds a non-empty container of the same kind in its place: then the entries about
+    that one's children say all there is to say (`{}` vs `{a: 1}` needs only ADD a)."""
     arrays = modes.get("arrays") or "position"
     aoh = modes.get("aoh") or "position"
     aoh_key = modes.get("aoh_key")
@@ -459,8 +469,10 @@ def diff_truth(entries, lhs, rhs, modes):
 
         # ---- coverage (any entry at the leaf's path or an ancestor's)
         entry_paths = set(s for (_, s, _, _) in parsed if s is not None)
-        for side, doc in (("left", lhs), ("right", rhs)):
+        for side, doc, other in (("left", lhs, rhs), ("right", rhs, lhs)):
             for lp, tok in leaves(doc):
+                if tok[0] == "empty" and _nonempty_same_kind(other, lp, tok[1]):
+                    continue
                 if not any(lp[:i] in entry_paths for i in range(len(lp) + 1)):
                     fails.append(_fail("leaf-covered", lp, "%s leaf has no entry at its path or an ancestor's" % side,
                                        side=side, leaf=tok))
@@ -478,18 +490,44 @@ def diff_truth(entries, lhs, rhs, modes):
         fails.append(_fail("differ-no-entry", None, "documents differ as data but every entry is SAME (%d entries)" % len(parsed)))
 
     # ---- exactly-once accounting
+    other_kinds = {}
+    if not pos:
+        # index-free path -> kinds of non-empty containers found there, per document
+        for name, doc in (("left", lhs), ("right", rhs)):
+            other_kinds[name] = _container_kinds(doc)
     for side, doc, actions, col in (("left", lhs, LEFT_SIDED, 2), ("right", rhs, RIGHT_SIDED, 3)):
+        other = rhs if side == "left" else lhs
+        oside = "right" if side == "left" else "left"
+
+        def skip(lp, tok):
+            if not any(k == "idx" for k, _ in lp):
+                return True                     # not (inside) a sequence element
+            if tok[0] == "empty":
+                if pos:
+                    return _nonempty_same_kind(other, lp, tok[1])
+                return tok[1] in other_kinds[oside].get(erase(lp), ())
+            return False
         want = Counter()
         first_path = {}
+        sided_paths = set(e[1] for e in parsed if e[0] in actions and e[1] is not None)
         for lp, tok in leaves(doc):
+            if skip(lp, tok):
+                continue
             k = (lp if pos else erase(lp), tok)
             want[k] += 1
-            first_path.setdefault(k, lp)
+            # (index-free comparison cannot tell which of several like leaves is the orphan:
+            #  prefer one that no entry of this side names by its exact path)
+            if k not in first_path or (
+                    any(first_path[k][:i] in sided_paths for i in range(len(first_path[k]) + 1))
+                    and not any(lp[:i] in sided_paths for i in range(len(lp) + 1))):
+                first_path[k] = lp
         got = Counter()
         got_path = {}
         for e in parsed:
             if e[0] in actions and e[1] is not None:
                 for lp, tok in leaves(e[col], e[1]):
+                    if skip(lp, tok):
+                        continue
                     k = (lp if pos else erase(lp), tok)
                     got[k] += 1
                     got_path[k] = lp
@@ -507,6 +545,28 @@ def diff_truth(entries, lhs, rhs, modes):
                                    % (side, got[k], want[k]),
                                    side=side, leaf=k[1], got=got[k], want=want[k], erased=path_text_erased(k[0])))
     return fails
+
+
+def _nonempty_same_kind(doc, segs, k):
+    found, val = resolve(doc, segs)
+    return found and kind(val) == k and len(val) > 0
+
+
+def _container_kinds(doc):
+    out = {}
+
+    def walk(x, path):
+        k = kind(x)
+        if k in ("map", "seq", "set") and len(x):
+            out.setdefault(path, set()).add(k)
+        if k == "map":
+            for kk, v in x.items():
+                walk(v, path + (("key", _key_text(kk)),))
+        elif k == "seq":
+            for v in x:
+                walk(v, path + (("idx", "*"),))
+    walk(doc, ())
+    return out
 
 
 def path_text_erased(segs):
